@@ -287,8 +287,8 @@ def rule_R2(body, arg=None):
 def rule_R3(body, arg):
     frm, to = arg.split("=>")
     frm, to = frm.strip(), to.strip()
-    if " as " not in frm:
-        raise ValueError("R3 only rewrites casts: %r" % frm)
+    if " as " not in frm and not re.match(r"^[A-Z_]+$", frm):
+        raise ValueError("R3 only rewrites casts and named constants: %r" % frm)
     n = body.count(frm)
     if n == 0:
         raise LostAnchor("R3: cast site `%s` not found" % frm)
@@ -382,7 +382,30 @@ def rule_R1p(body, arg=None):
     return body, n
 
 
-RULES = {"R1p": rule_R1p, "R6n": rule_R6n, "R10": rule_R10, "R11": rule_R11, "R1": rule_R1, "R2": rule_R2, "R3": rule_R3, "R4": rule_R4, "R6": rule_R6, "R7": rule_R7, "R8": rule_SUB}
+def rule_R4d(body, arg=None):
+    """debug_assert!/debug_assert_eq! lines are dropped (they do not exist in release builds; what they
+    assert is part of the unit's own requires/ensures where it matters)."""
+    n = 0
+    for mac in ("debug_assert_eq", "debug_assert_ne", "debug_assert"):
+        body, k = replace_calls(body, r"\b%s!" % mac, "()")
+        n += k
+    return body, n
+
+
+def rule_R12(body, arg=None):
+    """`X.iter().last()` -> `X.last()` (same element for a slice; Verus has no iterator adapters)"""
+    return re.subn(r"\.iter\(\)\.last\(\)", ".last()", body)
+
+
+def rule_R13(body, arg):
+    """`for X in V {` (consuming iteration over a Vec) -> index loop over the same elements in the same order:
+    `let __v = V; for __k in __it: 0..__v.len() { let X = __v[__k];`"""
+    x, v = [t.strip() for t in arg.split(" in ")]
+    pat = r"for\s+%s\s+in\s+%s\s*\{" % (re.escape(x), re.escape(v))
+    return re.subn(pat, "let __v = %s; for __k in __it: 0..__v.len() { let %s = __v[__k];" % (v, x), body)
+
+
+RULES = {"R13": rule_R13, "R4d": rule_R4d, "R12": rule_R12, "R1p": rule_R1p, "R6n": rule_R6n, "R10": rule_R10, "R11": rule_R11, "R1": rule_R1, "R2": rule_R2, "R3": rule_R3, "R4": rule_R4, "R6": rule_R6, "R7": rule_R7, "R8": rule_SUB}
 
 
 def apply_rules(body, rules, counts):
@@ -390,7 +413,7 @@ def apply_rules(body, rules, counts):
         r = r.strip()
         if not r:
             continue
-        m = re.match(r"(R\d+[np]?)(?:\[(.*)\])?$", r, re.S)
+        m = re.match(r"(R\d+[npd]?)(?:\[(.*)\])?$", r, re.S)
         if not m or m.group(1) not in RULES:
             raise ValueError("unknown rule %r" % r)
         body, n = RULES[m.group(1)](body, m.group(2))
@@ -398,18 +421,28 @@ def apply_rules(body, rules, counts):
     return body
 
 
-def insert_loop_annotations(body, loops):
-    """loops: {ordinal: text}. Insert text before the `{` of the n-th loop (for/while/loop, source order)."""
-    if not loops:
+def insert_loop_annotations(body, loops, pre=None):
+    """loops: {ordinal: text}. Insert text before the `{` of the n-th loop (for/while/loop, source order);
+    pre: {ordinal: ghost statements} inserted immediately before the loop statement."""
+    pre = pre or {}
+    if not loops and not pre:
         return body
     bm = code_mask(body)
     heads = [m for m in re.finditer(r"\b(for|while|loop)\b", body) if bm[m.start()]]
     out = body
     shift = 0
-    for n in sorted(loops):
+    for n in sorted(set(loops) | set(pre)):
         if n > len(heads):
             raise LostAnchor("loop #%d not found (body has %d loops)" % (n, len(heads)))
         h = heads[n - 1]
+        if n in pre:
+            # statement start: R13 may have put `let __v = ..;` right before the loop keyword on the same line
+            st = h.start()
+            ins0 = "\n" + pre[n] + "\n"
+            out = out[:st + shift] + ins0 + out[st + shift:]
+            shift += len(ins0)
+        if n not in loops:
+            continue
         j = h.end()
         depth = 0
         while j < len(body):
@@ -440,6 +473,8 @@ def build_unit(template_path, src_dir, verus_dir):
     out = []
     meta = {"rules": {}, "sliced": []}
     loops = {}
+    preloops = {}
+    ghosts = []
     cache = {}
 
     def load(f):
@@ -458,6 +493,12 @@ def build_unit(template_path, src_dir, verus_dir):
         elif s.startswith("//@LOOP"):
             m = re.match(r"//@LOOP\s+(\d+)\s+(.*)", s)
             loops[int(m.group(1))] = loops.get(int(m.group(1)), "") + " " + m.group(2)
+        elif s.startswith("//@GHOST"):
+            m = re.match(r'//@GHOST\s+after="((?:[^"\\]|\\.)*)"\s+(.*)', s)
+            ghosts.append((m.group(1), m.group(2)))
+        elif s.startswith("//@PRELOOP"):
+            m = re.match(r"//@PRELOOP\s+(\d+)\s+(.*)", s)
+            preloops[int(m.group(1))] = preloops.get(int(m.group(1)), "") + " " + m.group(2)
         elif s.startswith("//@VACUITY"):
             out.append("/*@VACUITY*/")
         elif s.startswith("//@BODY") or s.startswith("//@ARM") or s.startswith("//@MACROFN"):
@@ -509,8 +550,18 @@ def build_unit(template_path, src_dir, verus_dir):
             if nexp:
                 meta["rules"]["R5"] = meta["rules"].get("R5", 0) + nexp
             body = apply_rules(body, rules, meta["rules"])
-            body = insert_loop_annotations(body, loops)
+            body = insert_loop_annotations(body, loops, preloops)
             loops = {}
+            preloops = {}
+            # ghost-only statements (erased by Verus) inserted after a named statement of the extracted body
+            for anchor, text in ghosts:
+                at = body.find(anchor)
+                if at < 0:
+                    raise LostAnchor("ghost anchor `%s` not found" % anchor)
+                at += len(anchor)
+                body = body[:at] + "\n" + text + "\n" + body[at:]
+                meta["rules"]["GHOST"] = meta["rules"].get("GHOST", 0) + 1
+            ghosts = []
             out.append("// ---- begin extracted: %s ----" % where)
             out.append(body)
             out.append("// ---- end extracted ----")
